@@ -986,10 +986,17 @@ def gen_meas(rng, case, pool=None, boundary=False):
     for d, lo in zip(case["dims"], case["lo"]):
         lo = fr(lo)
         r = rng.random()
+        # far outside: up to half the largest finite float of the measures' precision (two of them in one batch
+        # already sum to more than the precision can hold); grids only -- for CVT that is the known finding D18
+        huge = F(2)**(127 if meas_dtype(case) == "f32" else 1023) if case["kind"] == "grid" and "dtype" in case and not case.get("nohuge") else None
         if r < 0.08:
             x = lo - w * rng.choice([1, 3, 1000])                 # below the range
+            if huge and rng.random() < 0.3:
+                x = -huge
         elif r < 0.16:
             x = lo + w * d + w * rng.choice([0, 1, 1000]) if boundary else lo + w * d + w * rng.choice([1, 1000])
+            if huge and rng.random() < 0.3:
+                x = huge
         elif boundary and r < 0.3 and case["kind"] == "grid" and case["dtype"] == "f64":
             x = lo + w * rng.randrange(d)                         # exactly on a boundary (belongs to the cell above)
         else:
@@ -1076,8 +1083,10 @@ def gen_history(rng, case, profile="mixed", nops=None):
     return ops
 
 
-def gen_case(rng, profile="mixed", kinds=("grid", "cvt", "sb"), cma=False, dtype=None):
+def gen_case(rng, profile="mixed", kinds=("grid", "cvt", "sb"), cma=False, dtype=None, huge=True):
     case = gen_geometry(rng, kinds=kinds)
+    if not huge:
+        case["nohuge"] = True       # (distances to such points overflow: not what a CQD score is about)
     case["dtype"] = dtype or rng.choice(["f64", "f64", "f32"])
     if profile == "collide":
         case["dtype"] = "f32"
